@@ -16,7 +16,8 @@ import json
 import re
 import vlib
 
-PROOFS = ["MgProof.C15.HandleLemmas", "MgProof.C15.PipeLemmas", "MgProof.C15.Props"]
+PROOFS = ["MgProof.C15.HandleLemmas", "MgProof.C15.HandleInv", "MgProof.C15.HandleSteps", "MgProof.C15.HandleLoop",
+          "MgProof.C15.HandleSafety", "MgProof.C15.PipeLemmas", "MgProof.C15.Props"]
 GREP = ["MgModel/C15", "MgProof/C15", "MgModel/Common", "Drv/C15.lean"]
 
 PIPE_SRCS = ["muggle/c/net/socket_evloop_pipe.c", "muggle/c/net/socket.c", "muggle/c/net/socket_context.c",
